@@ -188,6 +188,71 @@ def factory_vd_inplace(ns, props, **kw):
     return f
 
 
+def factory_vd_tworoles(ns, props, **kw):
+    """two calls with the SAME envelope and the SAME trusted metadata but two (free, possibly equal) role names in one
+    interpreter state: each verdict must follow its own role name (a verdict remembered from the first call must not
+    be handed out for another role)"""
+    def f(eng):
+        import conda_content_trust.authentication as A
+        from harness import lemmas
+        ovr = lemmas.overrides(eng)
+        ovr.update(dmt.checker_override())
+
+        def harness(eng):
+            tp = build_vd(eng, ns, **kw)
+            name2 = T(eng, ns=ns + '2').str('name', 8)
+            freeze(tp['Um'])
+            freeze(tp['Tm'])
+            eng.path_local['stdout_enc'] = tp['enc']
+            it = Interp(eng, ovr)
+            tps = [tp, dict(tp, name=name2, namev=name2)]
+            outs, ors = [], []
+            for tpi in tps:
+                outs.append(run_call(it, A.verify_delegation, [tpi['namev'], tp['Um'], tp['Tm']], {'gpg': tp['gpg']}))
+                ors.append(oracle_vd(it, tpi))
+            m = path_model(eng)
+            if m is None:
+                return None
+
+            def mk(mm):
+                c1 = mk_case_vd(eng, tp, mm)
+                return dict(scenario='vd_tworoles', name=c1['name'], name2=to_wire(conc(mm, name2)), U=c1['U'], gpg=c1['gpg'], T=c1['T'], env=c1['env'])
+            obs = []
+            for i, (out, o) in enumerate(zip(outs, ors)):
+                if is_ret(out):
+                    obs.append(oblige(eng, f'call {i + 1} (same envelope presented for two roles in turn) accepted => justified for THAT role', z3.Not(o['accept_lib']), mk))
+                else:
+                    obs.append(oblige(eng, f'call {i + 1} (same envelope presented for two roles in turn) rejected => not justified for that role', o['accept_strict'], mk))
+            w = mk(m)
+            w['predicted'] = [predicted(o) for o in outs]
+            return record(eng, outs[1], obs, w, ['/'.join('A' if is_ret(o) else 'R' for o in outs)], okey_='/'.join(okey(o) for o in outs))
+        return harness
+    return f
+
+
+def run_vd_tworoles(case):
+    import conda_content_trust.authentication as A
+    env = case.get('env', {})
+    CC.setup_valid_table(env.get('valid', []))
+    U, gpg, Tm = from_wire(case['U']), from_wire(case['gpg']), from_wire(case['T'])
+    outs = []
+    with CC.time_stub(env.get('iso')), CC.stdout_as(env.get('stdout_enc')):
+        for nm in (from_wire(case['name']), from_wire(case['name2'])):
+            outs.append(CC.outcome_of(A.verify_delegation, nm, U, Tm, gpg=gpg))
+    return {'outcomes': outs}
+
+
+def judge_vd_tworoles(case, obs, props):
+    if 'outcomes' not in obs:
+        return None
+    for i, (oc, nm) in enumerate(zip(obs['outcomes'], (case['name'], case['name2']))):
+        single = dict(name=nm, U=case['U'], T=case['T'], gpg=case['gpg'], env=case['env'])
+        why = judge_vd(single, {'outcome': oc, 'unchanged': True, 'stripped': None}, props)
+        if why:
+            return f'call {i + 1} of the same envelope presented for two roles in turn: {why}'
+    return None
+
+
 def run_vd_inplace(case):
     import conda_content_trust.authentication as A
     env = case.get('env', {})
